@@ -67,8 +67,13 @@ def run(chk):
               "an independent circle-through-three-points arc estimate on every corpus grid")
     chk.assume("quadratic convergence in finecontour_Nfine is monitored in the thorough tier only")
     chk.coq()
+    # the distance kernels: theories/Model_Quadrature.v (PrimFloat instance) against the real FineContour.calcDistance / reverse / getDistance
+    from props import quad
+    chk.trust("hand model theories/Model_Quadrature.v of FineContour.calcDistance / reverse / getDistance (numpy cumsum / argmin, closest_approach), "
+              "run bit for bit (binary64) against the real methods on every run")
+    qc = quad.correspondence(chk, 240 if chk.tier == "quick" else 3000, ["distance", "getdist"], "distance")
     grids = corpus.get(tier=chk.tier)
-    n = 0
+    n = len(qc[0]) if qc else 0
     worst = {}
     for g in grids:
         if not g.ok:
